@@ -65,6 +65,8 @@ def use_lines(v, pkg, base):
         (None if allowed(v, pkg) else "PKGO01", "\t_ = d.PT{X: %d}" % (base + 12)),
         (None if allowed(v, pkg) else "PKGO02", "\t_ = d.PF(%d)" % (base + 13)),
         (None if allowed(v, pkg) else "PKGO03", "\t_ = %s.PM(%d)" % (s, base + 14)),
+        # Purge is a method of PT declared in a file of d that sorts before d.go; it is restricted to d itself
+        ("PKGO03", "\td.PT{X: %d}.Purge()" % (base + 17)),
         ("IMM01", "\td.Hidden().X = %d" % (base + 15)),
         ("TONL03", "\t_ = d.Hidden().Probe(%d)" % (base + 16)),
     ]
@@ -73,7 +75,9 @@ def use_lines(v, pkg, base):
 
 def build(v, sid):
     expect = set()
-    pkgs = [{"path": "m/d", "name": "d", "files": [{"name": "d/d.go", "src": d_src(v)}]}]
+    pkgs = [{"path": "m/d", "name": "d", "files": [
+        {"name": "d/a_ops.go", "src": "package d\n\n// Purge is for d only.\n// @packageonly\nfunc (p PT) Purge() {}\n"},
+        {"name": "d/d.go", "src": d_src(v)}]}]
     # u: uses d; declares its own annotated type and an API that hands out d.T
     # e starts exactly like d (same package-name length): its first declaration has the same offset in its file as d's
     pkgs.append({"path": "m/e", "name": "e", "files": [{"name": "e/e.go", "src": "package e\n\n// PT0 is restricted to its package.\n// @packageonly\ntype PT0 struct{ X int }\n"}]})
@@ -120,4 +124,15 @@ def build(v, sid):
         expect.add(("w/a.go", len(ls), "IMM01"))
     ls += ["}", ""]
     pkgs.append({"path": "m/w", "name": "w", "files": [{"name": "w/a.go", "src": "\n".join(ls) + "\n"}]})
+    # a package that dot-imports d: no qualifier names the import, the annotations take effect all the same
+    ls = ["package dotu", "", 'import . "m/d"', "", "func use(p *T) {", "\tp.X = 3001"]
+    expect.add(("dotu/a.go", len(ls), "IMM01"))
+    ls.append("\t_ = T{X: 3002}")
+    expect.add(("dotu/a.go", len(ls), "CTOR01"))
+    ls.append("\t_ = TF(3003)")
+    expect.add(("dotu/a.go", len(ls), "TONL02"))
+    ls.append("\t_ = PT0{X: 3004}")
+    expect.add(("dotu/a.go", len(ls), "PKGO01"))
+    ls += ["}", ""]
+    pkgs.append({"path": "m/dotu", "name": "dotu", "files": [{"name": "dotu/a.go", "src": "\n".join(ls) + "\n"}]})
     return {"id": sid, "pkgs": pkgs}, expect
